@@ -79,6 +79,7 @@ type chanv struct {
 	// thread mode (threads.go): rendezvous bookkeeping
 	sendCount, recvCount int
 	recvWaiters          int
+	recvQ, sendQ         []*waitEntry // parked receivers / senders (threadchan.go)
 }
 
 // For map, array, *array, slice, string or channel.
